@@ -11,7 +11,7 @@ EXTENDS GoDec, Json
 CONSTANTS EmitOn, Level
 
 \* ---- types (zero values) -------------------------------------------------
-TBool == GB(FALSE)   TInt == GI(0)   TFloat == GFl(<<48>>)   TStr == GS(<<>>)
+TBool == GB(FALSE)   TInt == GI(0)   TFloat == GFl(<<48>>)   TStr == GS(<<>>)   TNum == GNum(<<>>)
 St(f) == [g |-> "struct", f |-> f]
 F(name, z) == [name |-> name, tagged |-> FALSE, tname |-> <<>>, omitempty |-> FALSE, str |-> FALSE, dash |-> FALSE, anon |-> FALSE, v |-> z]
 Tn(f, t) == [f EXCEPT !.tagged = TRUE, !.tname = t]
@@ -21,20 +21,21 @@ Anon(name, z) == [F(name, z) EXCEPT !.anon = TRUE]
 
 nA == <<65>>  nB == <<66>>  nC == <<67>>  nx == <<120>>  nAb == <<65, 98>>  nAk == <<65, 107>>  nS == <<83>>
 
-PlainTypes == { GNil, TBool, TInt, TFloat, TStr, GNilBy, GNilSl, GNilMp, GNilTSl(TInt), GNilTSl(GNil), GNilTMp(TInt), GNilTMp(TStr),
+PlainTypes == { GNil, TBool, TInt, TFloat, TStr, TNum, GNilTSl(TNum), GNilP(TNum), GNilBy, GNilSl, GNilMp, GNilTSl(TInt), GNilTSl(GNil), GNilTMp(TInt), GNilTMp(TStr),
                 GNilP(TInt), GNilP(TStr), GNilP(GNilP(TInt)), GNilTSl(GNilP(TInt)) }
 
 SAB   == St(<<F(nA, TInt), F(nB, TStr)>>)                                            \* struct{A int64; B string}
 STag  == St(<<Tn(F(nA, TInt), <<110>>), F(nx, TInt), Dash(F(nB, TInt)), F(nC, TBool)>>)   \* A `json:"n"`; x; B `json:"-"`; C bool
 SQ    == St(<<Qs(F(nA, TInt)), Qs(F(nB, TBool)), Qs(F(nC, TStr)), Qs(Tn(F(nS, TFloat), <<102>>))>>)   \* `,string` on int, bool, string, float ("f")
 SQp   == St(<<Qs(F(nA, GNilP(TInt))), Qs(F(nB, GNilP(TStr))), Qs(F(nC, GNilP(GNilP(TInt))))>>)   \* `,string` on *int64, *string; ignored on **int64
+SNum  == St(<<F(nA, TNum), Qs(F(nB, TNum)), Qs(F(nC, GNilP(TNum)))>>)                \* json.Number, with `,string`, *json.Number with `,string`
 SQx   == St(<<Qs(F(nA, GNilSl)), F(nB, TInt)>>)                                      \* `,string` on a slice: ignored
 SEmb  == St(<<F(nC, TInt), Anon(nAb, St(<<F(nA, TInt), F(nx, TInt)>>)), F(nB, TInt)>>)   \* embedded struct: A promoted
 SPtr  == St(<<F(nA, GNilP(St(<<F(nB, TInt)>>))), F(nC, GNilP(TInt))>>)               \* A *struct{B int64}; C *int64
 SCont == St(<<F(nA, GNilTMp(TInt)), F(nB, GNilTSl(TInt)), F(nC, GNil), F(nS, GNilMp)>>)   \* map[string]int64, []int64, interface{}, map[string]interface{}
 SFold == St(<<F(nAk, TInt), F(nS, TInt), Tn(F(nB, TInt), <<97, 75>>)>>)              \* Ak, S, B `json:"aK"`
 SNest == St(<<F(nA, SAB), F(nB, GNilTSl(SAB))>>)                                     \* nested struct, slice of structs
-StructTypes == { SAB, STag, SQ, SQp, SQx, SEmb, SPtr, SCont, SFold, SNest, St(<<>>) }
+StructTypes == { SAB, STag, SQ, SQp, SNum, SQx, SEmb, SPtr, SCont, SFold, SNest, St(<<>>) }
 
 \* ---- JSON values ---------------------------------------------------------
 N(l) == Num(l)
